@@ -22,3 +22,16 @@ def tail(items, n):
     if n <= 0:
         return [], label
     return items[-n:], label + "!"
+
+
+def scale(value, *, factor=1, offset=0, label):
+    # keyword-only parameters: `kw_defaults` holds None for the parameter without default
+    return value * factor + offset, label
+
+
+def merged(base, extra=None, *args, flag=True, **kw):
+    # dict display with ** unpacking: `keys` holds None for the unpacked entry
+    out = {**base, "k": 2, **kw}
+    if extra is not None and flag:
+        out["extra"] = extra + 1
+    return out
